@@ -8,6 +8,8 @@ import (
 	"strings"
 	"time"
 
+	"github.com/openconfig/gribigo/aft"
+	"github.com/openconfig/gribigo/constants"
 	"github.com/openconfig/gribigo/rib"
 	"github.com/openconfig/gribigo/server"
 	"github.com/openconfig/ygot/ygot"
@@ -102,6 +104,15 @@ func NewRIBMonVia(s gen.Space, noFwdRef bool, via int) (*RIBMon, error) {
 		return NewRIBMon(s, noFwdRef), nil
 	}
 	return NewServerRIBMon(s, noFwdRef, via == 2)
+}
+
+// WithIdleHooks registers a resolved-entry hook and a post-change hook that do nothing on
+// the monitored RIB: a RIB used by a forwarding plane has them, and everything the
+// monitors observe (verdicts, contents, counters, Get) must be the same with them.
+func (x *RIBMon) WithIdleHooks() *RIBMon {
+	x.R.SetResolvedEntryHook(func(map[string]*aft.RIB, constants.OpType, string, constants.AFT, any, ...rib.ResolvedDetails) {})
+	x.R.SetPostChangeHook(func(constants.OpType, int64, string, ygot.ValidatedGoStruct) {})
+	return x
 }
 
 // ViaName names the three ways for evidence.
